@@ -147,6 +147,12 @@ func fromJSON(ctx context.Context, services coreiface.CoreAPI, jsonLog *iface.JS
 
 	sorting.Sort(sorting.Compare, entries, false)
 
+	// The fetcher may deliver more than the requested length, keep the most
+	// recent entries only, like the other loaders do
+	if options.Length != nil && *options.Length > -1 {
+		entries = entryLast(entries, *options.Length)
+	}
+
 	return &Snapshot{
 		ID:     jsonLog.ID,
 		Heads:  jsonLog.Heads,
